@@ -204,4 +204,32 @@ example : let cmp : Int → Int → Int := fun a b => a - b
     (snext cmp [(1, 10), (2, 20), (3, 30), (4, 40)] (snext cmp [(1, 10), (2, 20), (3, 30), (4, 40)] it1).1).2 = some (4, 40) := by
   simp [smk, startOf, stopOf, snext, sraw, ahead, geS, aboveLo, seekFirstGreaterOrEqualStep]
 
+/-! ## non-vacuity with a lost cursor (audit C02-F4) -/
+
+/-- the comparator of the example -/
+def exCmp : Int → Int → Int := fun a b => a - b
+theorem exCmp_sw : StrictWeak exCmp := ⟨by intro a b; unfold exCmp; omega, by intro a b c; unfold exCmp; omega⟩
+
+/-- 16 ascending puts (the root splits: leaves `1 … 8 | 10 … 16`, separator 9), a forward iterator
+`Range(Included 12, Unbounded)` — parked on key 12 in the right leaf (node 1, index 2) —, then `Delete 10`, `Delete 11`: the right
+leaf underflows and is merged into the left one, so the cursor's node object has left the tree, the generation is stale and
+`lostAt` is `true` (by evaluation of the model: cursor `(1, 2, 12)`, `findNode 1 = none`); then three `Next`s -/
+def lostScript : List (Step Int Int) :=
+  (List.range 16).map (fun (i : Nat) => Step.mutate (.put ((i : Int) + 1) (10 * ((i : Int) + 1)))) ++
+  [.mk 0 true ⟨some .incl, 12⟩ ⟨some .unb, 0⟩, .mutate (.del 10), .mutate (.del 11), .next 0, .next 0, .next 0]
+
+def yieldOf {β : Type} : Obs β → Option (Option β)
+  | .yielded r => some r
+  | _ => none
+
+set_option maxRecDepth 4000 in
+/-- … the model runs the script to the end (no nil dereference) and its three `Next`s return what the specification returns:
+`12 ↦ 120` (re-sought by key in the merged node), `13 ↦ 130`, `14 ↦ 140`. -/
+example : ∃ m' os, mrun exCmp (⟨Tree.empty, fun _ => none⟩ : MSt Int Int) lostScript = some (m', os) ∧
+    ObsAll exCmp os (srun exCmp ⟨[], fun _ => none⟩ lostScript).2 ∧
+    ((srun exCmp (⟨[], fun _ => none⟩ : SSt Int Int) lostScript).2.drop 19).map yieldOf =
+      [some (some (12, 120)), some (some (13, 130)), some (some (14, 140))] := by
+  obtain ⟨m', os, h1, _, h3⟩ := iter_refines_resume exCmp exCmp_sw lostScript _ _ (sim_init exCmp)
+  exact ⟨m', os, h1, h3, by decide⟩
+
 end Juniper.Props.C02
